@@ -151,6 +151,7 @@ CHECKS = {
         'legs': [
             {'engine': 'faultcall', 'config': 'asan', 'variant': 'wipe', 'runs': [4000, 300000]},
             {'engine': 'protosim', 'config': 'asan', 'variant': 'bake', 'runs': [6000, 600000]},
+            {'engine': 'protosim', 'config': 'asan', 'variant': 'bakediff', 'runs': [4000, 400000]},
         ],
         'sigs_per_leg': True,
         'rule': ('a case is one secret-taking high-level call executed twice from an identical simulator state (same public arguments, arena addresses, '
@@ -158,7 +159,10 @@ CHECKS = {
                  'descriptor error variant (bad key, corrupted token, dead generator); every block handed to free / left by a moving realloc / still '
                  'live at return is snapshotted; distinct = distinct (function, return code, allocation trace) exits reached. '
                  'Second leg: the bake/BAUTH sessions of C04 (faulted and tampered sessions reach the drivers\' error exits); every block released during a session '
-                 'and every block still allocated when both parties returned is scanned for 8-octet windows of the private keys, the password and the session keys'),
+                 'and every block still allocated when both parties returned is scanned for 8-octet windows of the private keys, the password and the session keys. '
+                 'Third leg: the two-secret differential applied to whole sessions - same shape, schedule, heap garbage and (in half of the runs) the same failed allocation, '
+                 'two unrelated sets of private keys, passwords and generator tapes; paired released blocks must agree except where the octets are on the wire, '
+                 'in a certificate or in a hello message of their own run (catches decrypted message parts and derived keys the harness cannot name)'),
         'real': REAL_ALL,
         'stub': ['libc malloc/realloc/free (arena; realloc always moves)', 'caller generator (seeded tape drawn from the secret stream)'],
         'assumptions': [
